@@ -106,7 +106,13 @@ func (rb *Bitmap) IsEmpty() bool {
 	return all == 0
 }
 
-func (rb *Bitmap) RunOptimize() {}
+// RunOptimize keeps the set but rewrites the containers in place: for everybody else looking
+// at the bitmap it is a write (the model stores every word back).
+func (rb *Bitmap) RunOptimize() {
+	for i := range rb.w {
+		rb.w[i] = rb.w[i]
+	}
+}
 
 func (rb *Bitmap) GetCardinality() uint64 {
 	var n uint64
